@@ -17,7 +17,7 @@ def rich_programs(rng, nproc, nops):
             x = rng.random()
             rq = op["req"]
             if x < 0.15 and rq["old"] > 0 and rq["n"] > rq["old"]:
-                rq["pf"] = {"k": "bad", "kind": rng.choice(["flip", "drop", "add", "random"])}
+                rq["pf"] = {"k": "bad", "kind": rng.choice(["flip", "drop", "add", "random", "long64", "long100"])}
             elif x < 0.3 and rq["n"] >= 2:
                 rq["b"] = 1
                 rq["old"] = rq["n"]
